@@ -10,6 +10,7 @@ import (
 	"strconv"
 	"strings"
 	"syscall"
+	"time"
 
 	"github.com/dgraph-io/badger"
 	"github.com/jirenius/go-res/store/badgerstore"
@@ -67,6 +68,14 @@ func (d *crashDom) Gen(r *gen.R, tier string, emit func(string)) {
 		prefix := r.Pick([]string{"", "pfx"})
 		// no kill at all
 		emit(wire.Line(append([]string{"crash", prefix, "none", "0"}, ops...)...))
+		// random-time kills: the workload takes some tens of milliseconds (every commit is synced)
+		nt := 6
+		if tier == "thorough" {
+			nt = 40
+		}
+		for t := 0; t < nt; t++ {
+			emit(wire.Line(append([]string{"crash", prefix, "time", strconv.Itoa(200 + r.Intn(60000))}, ops...)...))
+		}
 		for _, p := range crashPoints {
 			for k := 1; k <= 12; k++ {
 				emit(wire.Line(append([]string{"crash", prefix, p, strconv.Itoa(k)}, ops...)...))
@@ -110,6 +119,13 @@ func CrashChild(args []string) {
 	if err != nil {
 		fmt.Fprintln(logf, "OPENFAIL")
 		os.Exit(3)
+	}
+	if point == "time" {
+		// a kill at a random moment (k microseconds into the workload), wherever the process happens to be
+		go func() {
+			time.Sleep(time.Duration(k) * time.Microsecond)
+			syscall.Kill(os.Getpid(), syscall.SIGKILL)
+		}()
 	}
 	for i, op := range ops {
 		f := strings.Split(op, ":")
